@@ -235,6 +235,16 @@ def stream_and_file(ctx, prog):
         cl = fd.get(callee_of(st))
         ok = ok and cl is not None and cl[0] == "try" and f.dominates(cl[2], ci)
     ctx.ob(R, "hash_file: declares Metadata::len of the very file it then reads, with `?`, before hash_stream_common on the same generator", ok, why, f.loc())
+    # a hash can only come out of the shared read loop: no finaliser and no locally built Ok in the two wrappers
+    for g in (prog.fn("generate_easy_std::hash_stream"), f):
+        bad = []
+        for i, t in g.calls():
+            if "Generator::finalize" in callee_of(t):
+                bad.append("calls %s" % callee_of(t).split("::")[-1])
+        for i, j, s in g.stmts():
+            if s["s"] == "assign" and s["lhs"]["l"] == 0 and s["rv"]["r"] == "agg" and s["rv"]["kind"].get("variant") == "Ok":
+                bad.append("builds Ok locally")
+        ctx.ob(R, "%s: every hash it returns is produced by hash_stream_common (no shortcut finalisation)" % g.short, not bad, "; ".join(bad) or "only the delegated call can produce Ok", g.loc())
     return n
 
 
